@@ -161,7 +161,9 @@ pub fn check_c03(b: &[u8], l: &mut Local, coll: &Collector) {
     });
     c03_compare(b, &zone, &out, l, coll, "c03");
     // the other entry points that parse a locale agree with from_bytes
-    let same = |a: &Out<Locale>, c: &Out<Locale>| a.kind() == c.kind() && (a.ok().is_none() || (a.ok() == c.ok() && format!("{:?}", a.ok()) == format!("{:?}", c.ok())));
+    // (value equality and, for accepted inputs, the same representation: Debug text)
+    let dbg_out = out.ok().map(|x| format!("{:?}", x));
+    let same = |a: &Out<Locale>, c: &Out<Locale>| a.kind() == c.kind() && (a.ok().is_none() || (a.ok() == c.ok() && dbg_out == c.ok().map(|x| format!("{:?}", x))));
     let o2 = guard(|| unic_locale_impl::parser::parse_locale(b));
     if !same(&out, &o2) {
         viol(coll, l, "c03.entry_points", "parser::parse_locale differs from Locale::from_bytes".into(), b, out.brief(|x| x.to_string()), o2.brief(|x| x.to_string()));
@@ -171,10 +173,8 @@ pub fn check_c03(b: &[u8], l: &mut Local, coll: &Collector) {
         if !same(&out, &o3) {
             viol(coll, l, "c03.entry_points", "Locale::from_str differs from Locale::from_bytes".into(), b, out.brief(|x| x.to_string()), o3.brief(|x| x.to_string()));
         }
-        let o4: Out<Locale> = guard(|| s.parse::<Locale>());
-        if !same(&out, &o4) {
-            viol(coll, l, "c03.entry_points", "str::parse::<Locale> differs from Locale::from_bytes".into(), b, out.brief(|x| x.to_string()), o4.brief(|x| x.to_string()));
-        }
+        // (`str::parse::<Locale>` is std's one-line wrapper around `FromStr::from_str`: the
+        // same code, not a separate entry point of the library)
     }
     // the extension part alone: ExtensionsMap::from_bytes on the text after the language id
     if let (Zone::MustAccept(v), Out::Ok(loc)) = (&zone, &out) {
